@@ -234,124 +234,158 @@ def run(ctx) -> None:
     r3 = ctx.rule("R13.3", "Fermi-sea accumulation semantics", min_instances=3)
     ladders = [s_ for s_ in ast.walk(call.node) if isinstance(s_, ast.If) and isinstance(s_.test, ast.Compare) and len(s_.test.ops) == 1
                and isinstance(s_.test.ops[0], ast.Lt) and norm(s_.test.comparators[0]) == "self.EFmin" and isinstance(s_.test.left, ast.Name)]
+    # upper edge (any formulation): the Fermi index ceil((E − EFmin)/dEF) is only used for groups with E ≤ EFmax — a group above the scan must
+    # not be accumulated anywhere (clamping its index into the last bin counts it as occupied at the highest level)
+    ceil_sites = []
+    for g_ in [call] + reachable_helpers(idx, call):
+        GS_ = Sem(idx, g_)
+        GS_.inline_helpers = False
+        for c_ in ast.walk(g_.node):
+            if isinstance(c_, ast.Call) and call_name(c_).split(".")[-1] == "ceil" and c_.args and "EFmin" in norm(c_.args[0]):
+                ceil_sites.append((g_, GS_, c_))
+    r3.expect(bool(ceil_sites), "Fermi index computation located", call, call.node, "StaticCalculator.__call__: `ceil((E − self.EFmin) / self.dEF)` not found")
+
+    def efmax_guard(S_, st_) -> bool:
+        for t_, p_, _n in S_.conditions(st_, resolve=False):
+            tt = t_.replace(" ", "")
+            if ("<=self.EFmax" in tt and p_) or (">self.EFmax" in tt and not p_) or ("self.EFmax>=" in tt and p_) or ("self.EFmax<" in tt and not p_):
+                return True
+        return False
+    for g_, GS_, c_ in ceil_sites:
+        st_ = enclosing(GS_.pm, c_, ast.stmt)
+        ok_g = efmax_guard(GS_, st_)
+        if not ok_g and g_ is not call:
+            sites_ = [x for x in ast.walk(call.node) if isinstance(x, ast.Call) and ((isinstance(x.func, ast.Attribute) and x.func.attr == g_.name) or
+                                                                                   (isinstance(x.func, ast.Name) and x.func.id == g_.name))]
+            ok_g = bool(sites_) and all(efmax_guard(CS, enclosing(pm, x, ast.stmt)) for x in sites_)
+        r3.instance(f"{g_.short}: {norm1(c_, 60)}")
+        r3.check(ok_g, "the Fermi index of a group is used only when the group's energy is ≤ EFmax", g_, st_,
+                 f"`{norm1(st_, 90)}` computes / uses the Fermi-level index of a group without the test E ≤ self.EFmax: a group whose energy lies above "
+                 f"the scanned range is accumulated (into the last level) although it is empty at every level", stmt="upper edge of the scan")
     if len(ladders) != 1:
-        raise AnalysisError("StaticCalculator.__call__: `if E < self.EFmin:` accumulation ladder not found")
-    li = ladders[0]
-    Ev = li.test.left.id
-    r3.instance(f"{call.short}: accumulation ladder")
-    lp_g = enclosing(pm, li, ast.For)
-    gv = None
-    if lp_g is not None and isinstance(lp_g.target, ast.Tuple) and len(lp_g.target.elts) == 2 and norm(lp_g.target.elts[1]) == Ev:
-        gv = norm(lp_g.target.elts[0])
+        r3.expect(False, "", call, call.node, "StaticCalculator.__call__: `if E < self.EFmin:` accumulation ladder not found (other formulations of the "
+                  "Fermi-sea accumulation are only checked for the upper-edge rule)")
+        ladders = []
+    li = ladders[0] if ladders else None
+    if li is not None:
+        Ev = li.test.left.id
+        r3.instance(f"{call.short}: accumulation ladder")
+        lp_g = enclosing(pm, li, ast.For)
+        gv = None
+        if lp_g is not None and isinstance(lp_g.target, ast.Tuple) and len(lp_g.target.elts) == 2 and norm(lp_g.target.elts[1]) == Ev:
+            gv = norm(lp_g.target.elts[0])
 
-    def result_index_ok(e: ast.AST, at: int) -> bool:
-        """row of the result a k-point contributes to: ik if k-resolved else 0"""
-        ikv = None
-        for l_ in enclosing_all(pm, li, ast.For):
-            if isinstance(l_.iter, ast.Call) and call_name(l_.iter) == "enumerate" and isinstance(l_.target, ast.Tuple):
-                ikv = norm(l_.target.elts[0])
-        r_ = CS.resolve(e, at)
-        if isinstance(r_, ast.IfExp):
-            return (norm(r_.test) == "self.k_resolved" and norm(r_.body) == ikv and const_of(r_.orelse) == 0) or \
-                (norm(r_.test) == "not self.k_resolved" and norm(r_.orelse) == ikv and const_of(r_.body) == 0)
-        if isinstance(e, ast.Call) and isinstance(e.func, ast.Name) and len(e.args) == 1 and norm(e.args[0]) == ikv:
-            defs_ = [n for n in ast.walk(call.node) if isinstance(n, ast.FunctionDef) and n.name == e.func.id]
-            res_ = {}
-            for d_ in defs_:
-                g_if = enclosing(pm, d_, ast.If)
-                if g_if is None or norm(g_if.test) != "self.k_resolved":
-                    return False
-                rr = [x for x in ast.walk(d_) if isinstance(x, ast.Return)]
-                if len(rr) != 1:
-                    return False
-                res_[in_body(g_if.body, d_)] = norm(rr[0].value)
-            par = {True: defs_[0].args.args[0].arg if defs_ else None}
-            return len(defs_) == 2 and set(res_) == {True, False} and res_[False] == "0" and \
-                res_[True] == [d_ for d_ in defs_ if in_body(enclosing(pm, d_, ast.If).body, d_)][0].args.args[0].arg
-        return False
-
-    def acc_store(st_: ast.stmt):
-        """(row expr, column slice or None, value) of `restot[row(, slice)] += value`"""
-        if isinstance(st_, ast.AugAssign) and isinstance(st_.op, ast.Add) and isinstance(st_.target, ast.Subscript):
-            sl = st_.target.slice
-            if isinstance(sl, ast.Tuple) and len(sl.elts) == 2:
-                return norm(st_.target.value), sl.elts[0], sl.elts[1], st_.value
-            return norm(st_.target.value), sl, None, st_.value
-        return None
-
-    def value_ok(v: ast.AST, at: int, lead_none: bool) -> bool:
-        """values_k[G](…[None]) * weight_select_bands(G[0], G[1], self.select_bands)"""
-        if not (isinstance(v, ast.BinOp) and isinstance(v.op, ast.Mult)):
+        def result_index_ok(e: ast.AST, at: int) -> bool:
+            """row of the result a k-point contributes to: ik if k-resolved else 0"""
+            ikv = None
+            for l_ in enclosing_all(pm, li, ast.For):
+                if isinstance(l_.iter, ast.Call) and call_name(l_.iter) == "enumerate" and isinstance(l_.target, ast.Tuple):
+                    ikv = norm(l_.target.elts[0])
+            r_ = CS.resolve(e, at)
+            if isinstance(r_, ast.IfExp):
+                return (norm(r_.test) == "self.k_resolved" and norm(r_.body) == ikv and const_of(r_.orelse) == 0) or \
+                    (norm(r_.test) == "not self.k_resolved" and norm(r_.orelse) == ikv and const_of(r_.body) == 0)
+            if isinstance(e, ast.Call) and isinstance(e.func, ast.Name) and len(e.args) == 1 and norm(e.args[0]) == ikv:
+                defs_ = [n for n in ast.walk(call.node) if isinstance(n, ast.FunctionDef) and n.name == e.func.id]
+                res_ = {}
+                for d_ in defs_:
+                    g_if = enclosing(pm, d_, ast.If)
+                    if g_if is None or norm(g_if.test) != "self.k_resolved":
+                        return False
+                    rr = [x for x in ast.walk(d_) if isinstance(x, ast.Return)]
+                    if len(rr) != 1:
+                        return False
+                    res_[in_body(g_if.body, d_)] = norm(rr[0].value)
+                par = {True: defs_[0].args.args[0].arg if defs_ else None}
+                return len(defs_) == 2 and set(res_) == {True, False} and res_[False] == "0" and \
+                    res_[True] == [d_ for d_ in defs_ if in_body(enclosing(pm, d_, ast.If).body, d_)][0].args.args[0].arg
             return False
-        for a_, w_ in ((v.left, v.right), (v.right, v.left)):
-            if isinstance(w_, ast.Call) and call_name(w_) == "weight_select_bands" and len(w_.args) == 3:
-                ar = [CS.rnorm(x, at) for x in w_.args]
-                base = a_.value if (lead_none and isinstance(a_, ast.Subscript) and const_of(a_.slice) is None) else a_
-                if lead_none and base is a_:
-                    return False
-                if isinstance(base, ast.Subscript) and norm(base.slice) == gv:
-                    bres = CS.rnorm(base.value, at)
-                    return ar[0] in (f"{gv}[0]",) and ar[1] in (f"{gv}[1]",) and ar[2] == "self.select_bands" and bres.startswith("values[")
-        return False
-    b0 = acc_store(li.body[0]) if li.body else None
-    okb0 = b0 is not None and b0[2] is None and gv is not None and result_index_ok(b0[1], cfg.node(li.body[0])) and value_ok(b0[3], cfg.node(li.body[0]), True)
-    r3.check(okb0, "groups below the scan contribute to every Fermi level", call, li.body[0] if li.body else li,
-             "a band group lying below the whole Fermi-level scan is not added (with its band-selection weight) to all levels")
-    el = li.orelse[0] if li.orelse and isinstance(li.orelse[0], ast.If) else None
-    okel = el is not None and norm(el.test).replace(" ", "") == f"{Ev}<=self.EFmax" and not el.orelse
-    r3.check(okel, "groups above the scan contribute to no level", call, el or li,
-             "band groups above EFmax are accumulated (or groups inside the scan are skipped)")
-    if el is not None:
-        sts = [x for x in el.body if not (isinstance(x, ast.Expr) and isinstance(x.value, ast.Constant))]
-        b1 = acc_store(sts[-1]) if sts else None
-        oki = False
-        if b1 is not None and b1[2] is not None and isinstance(b1[2], ast.Slice) and b1[2].upper is None and b1[2].step is None and b1[2].lower is not None:
-            lo = CS.rnorm(b1[2].lower, cfg.node(sts[-1]))
-            oki = lo in (f"ceil(({Ev} - self.EFmin) / self.dEF)", f"math.ceil(({Ev} - self.EFmin) / self.dEF)", f"int(np.ceil(({Ev} - self.EFmin) / self.dEF))") and \
-                b1[0] == (b0[0] if b0 else b1[0]) and result_index_ok(b1[1], cfg.node(sts[-1])) and value_ok(b1[3], cfg.node(sts[-1]), False)
-        r3.check(oki, "a group at energy E is added to the levels EF ≥ E: index ceil((E − EFmin)/dEF) onwards", call, el.body[0],
-                 f"a group at energy E is accumulated as `{'; '.join(norm1(s, 70) for s in el.body)}`: not 'all Fermi levels at or above "
-                 f"E' (occupation is counted below the band or one level late)")
-    r3.check(lp_g is not None and norm(lp_g.iter).startswith("sorted(") and norm(lp_g.iter).endswith(".items())"), "groups are visited in band order", call, lp_g or li,
-             "the accumulation no longer iterates sorted(weights.items())")
-    tc = norm(call.node).replace(" ", "")
-    r3.instance(f"{call.short}: sea flag")
-    gcalls = [c_ for c_ in ast.walk(call.node) if isinstance(c_, ast.Call) and isinstance(c_.func, ast.Attribute) and c_.func.attr == "get_bands_in_range_groups"]
-    seav = kwarg(gcalls[0], "sea") if len(gcalls) == 1 else None
-    r3.check(seav is not None and norm(seav).replace(" ", "") in ("self.fder==0", "0==self.fder"), "bands below the window are completed only for the Fermi sea (fder = 0)", call,
-             gcalls[0] if gcalls else call.node, "the `sea` completion is not tied to fder == 0", stmt="sea=(self.fder == 0)")
-    r3.instance(f"{init.short}: hole_like")
-    IS = Sem(idx, init)
-    hl = [s_ for s_ in stmts(init.node) if isinstance(s_, ast.AugAssign) and norm(s_.target) == "self.constant_factor" and isinstance(s_.op, ast.Mult) and const_of(s_.value) == -1]
-    okhl = len(hl) == 1 and {t_ for t_, p_, _ in IS.conditions(hl[0], resolve=False) if p_} >= {"self.hole_like"} and \
-        any(t_ in ("0 == self.fder", "self.fder == 0") and p_ for t_, p_, _ in IS.conditions(hl[0], resolve=False))
-    r3.check(okhl, "hole_like flips the sign for the Fermi sea only", init, hl[0] if hl else init.node, "hole_like sign handling changed", stmt="hole_like")
-    wcalls = [c_ for c_ in ast.walk(call.node) if isinstance(c_, ast.Call) and isinstance(c_.func, ast.Attribute) and c_.func.attr == "weights_all_band_groups"]
-    derv = kwarg(wcalls[0], "der", 1) if len(wcalls) == 1 else None
-    r3.check(derv is not None and bool(pmatch(derv, "-1 if self.hole_like else self.fder") or pmatch(derv, "self.fder if not self.hole_like else -1")),
-             "tetrahedron: hole_like uses the anti-sea weights", call, wcalls[0] if wcalls else call.node,
-             "tetrahedron weights no longer use der=-1 for hole_like", stmt="der=-1")
+
+        def acc_store(st_: ast.stmt):
+            """(row expr, column slice or None, value) of `restot[row(, slice)] += value`"""
+            if isinstance(st_, ast.AugAssign) and isinstance(st_.op, ast.Add) and isinstance(st_.target, ast.Subscript):
+                sl = st_.target.slice
+                if isinstance(sl, ast.Tuple) and len(sl.elts) == 2:
+                    return norm(st_.target.value), sl.elts[0], sl.elts[1], st_.value
+                return norm(st_.target.value), sl, None, st_.value
+            return None
+
+        def value_ok(v: ast.AST, at: int, lead_none: bool) -> bool:
+            """values_k[G](…[None]) * weight_select_bands(G[0], G[1], self.select_bands)"""
+            if not (isinstance(v, ast.BinOp) and isinstance(v.op, ast.Mult)):
+                return False
+            for a_, w_ in ((v.left, v.right), (v.right, v.left)):
+                if isinstance(w_, ast.Call) and call_name(w_) == "weight_select_bands" and len(w_.args) == 3:
+                    ar = [CS.rnorm(x, at) for x in w_.args]
+                    base = a_.value if (lead_none and isinstance(a_, ast.Subscript) and const_of(a_.slice) is None) else a_
+                    if lead_none and base is a_:
+                        return False
+                    if isinstance(base, ast.Subscript) and norm(base.slice) == gv:
+                        bres = CS.rnorm(base.value, at)
+                        return ar[0] in (f"{gv}[0]",) and ar[1] in (f"{gv}[1]",) and ar[2] == "self.select_bands" and bres.startswith("values[")
+            return False
+        b0 = acc_store(li.body[0]) if li.body else None
+        okb0 = b0 is not None and b0[2] is None and gv is not None and result_index_ok(b0[1], cfg.node(li.body[0])) and value_ok(b0[3], cfg.node(li.body[0]), True)
+        r3.check(okb0, "groups below the scan contribute to every Fermi level", call, li.body[0] if li.body else li,
+                 "a band group lying below the whole Fermi-level scan is not added (with its band-selection weight) to all levels")
+        el = li.orelse[0] if li.orelse and isinstance(li.orelse[0], ast.If) else None
+        okel = el is not None and norm(el.test).replace(" ", "") == f"{Ev}<=self.EFmax" and not el.orelse
+        r3.check(okel, "groups above the scan contribute to no level", call, el or li,
+                 "band groups above EFmax are accumulated (or groups inside the scan are skipped)")
+        if el is not None:
+            sts = [x for x in el.body if not (isinstance(x, ast.Expr) and isinstance(x.value, ast.Constant))]
+            b1 = acc_store(sts[-1]) if sts else None
+            oki = False
+            if b1 is not None and b1[2] is not None and isinstance(b1[2], ast.Slice) and b1[2].upper is None and b1[2].step is None and b1[2].lower is not None:
+                lo = CS.rnorm(b1[2].lower, cfg.node(sts[-1]))
+                oki = lo in (f"ceil(({Ev} - self.EFmin) / self.dEF)", f"math.ceil(({Ev} - self.EFmin) / self.dEF)", f"int(np.ceil(({Ev} - self.EFmin) / self.dEF))") and \
+                    b1[0] == (b0[0] if b0 else b1[0]) and result_index_ok(b1[1], cfg.node(sts[-1])) and value_ok(b1[3], cfg.node(sts[-1]), False)
+            r3.check(oki, "a group at energy E is added to the levels EF ≥ E: index ceil((E − EFmin)/dEF) onwards", call, el.body[0],
+                     f"a group at energy E is accumulated as `{'; '.join(norm1(s, 70) for s in el.body)}`: not 'all Fermi levels at or above "
+                     f"E' (occupation is counted below the band or one level late)")
+        r3.check(lp_g is not None and norm(lp_g.iter).startswith("sorted(") and norm(lp_g.iter).endswith(".items())"), "groups are visited in band order", call, lp_g or li,
+                 "the accumulation no longer iterates sorted(weights.items())")
+        tc = norm(call.node).replace(" ", "")
+        r3.instance(f"{call.short}: sea flag")
+        gcalls = [c_ for c_ in ast.walk(call.node) if isinstance(c_, ast.Call) and isinstance(c_.func, ast.Attribute) and c_.func.attr == "get_bands_in_range_groups"]
+        seav = kwarg(gcalls[0], "sea") if len(gcalls) == 1 else None
+        r3.check(seav is not None and norm(seav).replace(" ", "") in ("self.fder==0", "0==self.fder"), "bands below the window are completed only for the Fermi sea (fder = 0)", call,
+                 gcalls[0] if gcalls else call.node, "the `sea` completion is not tied to fder == 0", stmt="sea=(self.fder == 0)")
+        r3.instance(f"{init.short}: hole_like")
+        IS = Sem(idx, init)
+        hl = [s_ for s_ in stmts(init.node) if isinstance(s_, ast.AugAssign) and norm(s_.target) == "self.constant_factor" and isinstance(s_.op, ast.Mult) and const_of(s_.value) == -1]
+        okhl = len(hl) == 1 and {t_ for t_, p_, _ in IS.conditions(hl[0], resolve=False) if p_} >= {"self.hole_like"} and \
+            any(t_ in ("0 == self.fder", "self.fder == 0") and p_ for t_, p_, _ in IS.conditions(hl[0], resolve=False))
+        r3.check(okhl, "hole_like flips the sign for the Fermi sea only", init, hl[0] if hl else init.node, "hole_like sign handling changed", stmt="hole_like")
+        wcalls = [c_ for c_ in ast.walk(call.node) if isinstance(c_, ast.Call) and isinstance(c_.func, ast.Attribute) and c_.func.attr == "weights_all_band_groups"]
+        derv = kwarg(wcalls[0], "der", 1) if len(wcalls) == 1 else None
+        r3.check(derv is not None and bool(pmatch(derv, "-1 if self.hole_like else self.fder") or pmatch(derv, "self.fder if not self.hole_like else -1")),
+                 "tetrahedron: hole_like uses the anti-sea weights", call, wcalls[0] if wcalls else call.node,
+                 "tetrahedron weights no longer use der=-1 for hole_like", stmt="der=-1")
 
     # ---------------------------------------------------------------- R13.4
     r4 = ctx.rule("R13.4", "k-resolved path = unresolved path up to the result index and 1/nk")
     r4.instance(call.short)
-    accs = [s_ for s_ in stmts(call.node) if isinstance(s_, ast.AugAssign) and isinstance(s_.op, ast.Add) and isinstance(s_.target, ast.Subscript)
-            and b0 is not None and norm(s_.target.value) == b0[0]]
-    r4.check(len(accs) >= 3 and all(result_index_ok(acc_store(s_)[1], cfg.node(s_)) for s_ in accs),
-             "every accumulation goes to row ik (k-resolved) or row 0 (summed over k)", call, accs[0] if accs else call.node,
-             "an accumulation into the result does not go to row `ik if k_resolved else 0`: resolved and summed results differ")
-    nkdiv = [s_ for s_ in stmts(call.node) if isinstance(s_, ast.AugAssign) and isinstance(s_.op, ast.Div) and b0 is not None and norm(s_.target) == b0[0]
-             and CS.rnorm(s_.value, cfg.node(s_)) in ("data_K.nk",)]
-    oknk = len(nkdiv) == 1 and any(t_ == "self.k_resolved" and p_ is False for t_, p_, _ in CS.conditions(nkdiv[0], resolve=False))
-    r4.check(oknk, "only the unresolved result is divided by nk", call, nkdiv[0] if nkdiv else call.node,
-             "the 1/nk normalisation is not applied exactly to the k-summed result", stmt="restot /= nk")
-    er = [c_ for c_ in ast.walk(call.node) if isinstance(c_, ast.Call) and call_name(c_) == "EnergyResult"]
-    kr = [c_ for c_ in ast.walk(call.node) if isinstance(c_, ast.Call) and call_name(c_) == "K__Result"]
-    okw = len(er) == 1 and len(kr) == 1 and b0 is not None and len(er[0].args) >= 2 and norm(er[0].args[1]) == f"{b0[0]}[0]" and norm(er[0].args[0]) == "self.Efermi" \
-        and kr[0].args and norm(kr[0].args[0]) == f"[{b0[0]}]" and \
-        any(t_ == "self.k_resolved" and p_ for t_, p_, _ in CS.conditions(enclosing(pm, kr[0], ast.stmt), resolve=False)) and \
-        any(t_ == "self.k_resolved" and p_ is False for t_, p_, _ in CS.conditions(enclosing(pm, er[0], ast.stmt), resolve=False))
-    r4.check(okw, "result wrappers take the matching array", call, er[0] if er else call.node, "result construction changed", stmt="result wrappers")
+    if li is None:
+        r4.expect(False, "", call, call.node, "StaticCalculator.__call__: accumulation not in ladder form — the k-resolved / summed comparison is not decided")
+    if li is not None:
+        accs = [s_ for s_ in stmts(call.node) if isinstance(s_, ast.AugAssign) and isinstance(s_.op, ast.Add) and isinstance(s_.target, ast.Subscript)
+                and b0 is not None and norm(s_.target.value) == b0[0]]
+        r4.check(len(accs) >= 3 and all(result_index_ok(acc_store(s_)[1], cfg.node(s_)) for s_ in accs),
+                 "every accumulation goes to row ik (k-resolved) or row 0 (summed over k)", call, accs[0] if accs else call.node,
+                 "an accumulation into the result does not go to row `ik if k_resolved else 0`: resolved and summed results differ")
+        nkdiv = [s_ for s_ in stmts(call.node) if isinstance(s_, ast.AugAssign) and isinstance(s_.op, ast.Div) and b0 is not None and norm(s_.target) == b0[0]
+                 and CS.rnorm(s_.value, cfg.node(s_)) in ("data_K.nk",)]
+        oknk = len(nkdiv) == 1 and any(t_ == "self.k_resolved" and p_ is False for t_, p_, _ in CS.conditions(nkdiv[0], resolve=False))
+        r4.check(oknk, "only the unresolved result is divided by nk", call, nkdiv[0] if nkdiv else call.node,
+                 "the 1/nk normalisation is not applied exactly to the k-summed result", stmt="restot /= nk")
+        er = [c_ for c_ in ast.walk(call.node) if isinstance(c_, ast.Call) and call_name(c_) == "EnergyResult"]
+        kr = [c_ for c_ in ast.walk(call.node) if isinstance(c_, ast.Call) and call_name(c_) == "K__Result"]
+        okw = len(er) == 1 and len(kr) == 1 and b0 is not None and len(er[0].args) >= 2 and norm(er[0].args[1]) == f"{b0[0]}[0]" and norm(er[0].args[0]) == "self.Efermi" \
+            and kr[0].args and norm(kr[0].args[0]) == f"[{b0[0]}]" and \
+            any(t_ == "self.k_resolved" and p_ for t_, p_, _ in CS.conditions(enclosing(pm, kr[0], ast.stmt), resolve=False)) and \
+            any(t_ == "self.k_resolved" and p_ is False for t_, p_, _ in CS.conditions(enclosing(pm, er[0], ast.stmt), resolve=False))
+        r4.check(okw, "result wrappers take the matching array", call, er[0] if er else call.node, "result construction changed", stmt="result wrappers")
 
     # ---------------------------------------------------------------- R13.5
     r5 = ctx.rule("R13.5", "band groups are half-open [ib1, ib2) everywhere", min_instances=4)
@@ -483,6 +517,8 @@ def run(ctx) -> None:
 from ..selftest import V  # noqa: E402
 
 SELFTEST = [
+    V("groups above the scan no longer dropped (seeded C13-m3)", ST, "                    elif E <= self.EFmax:\n                        iEf = ceil((E - self.EFmin) / self.dEF)\n",
+      "                    else:\n                        iEf = min(ceil((E - self.EFmin) / self.dEF), self.nEF_extra - 1)\n", "fire", "R13.3"),
     V("upper end of the scan not extended", ST, "            self.EFmax = Efermi[-1] + self.extraEf * self.dEF\n", "            self.EFmax = Efermi[-1] + self.dEF\n", "fire", "R13.2"),
     V("extra points counted once", ST, "            self.nEF_extra = Efermi.shape[0] + 2 * self.extraEf\n", "            self.nEF_extra = Efermi.shape[0] + self.extraEf\n", "fire", "R13.2"),
     V("neutral: scan extension through named temporaries", ST,
